@@ -19,6 +19,30 @@ Proof. vm_compute. reflexivity. Qed.
 Theorem C19_source_dump_is_model : forall kw h, dump_d history_descr h kw = dump h kw.
 Proof. exact (dump_d_ok history_descr C19_source_clause_table). Qed.
 
+(* ---- the source's get / save / load are the modelled ones: their statement sequences (guards in order,
+        exception classes and messages, the asarray / object-array fallback, the subscript, the stacking call;
+        the open mode, what is pickled, the dictionary update) are regenerated on every check and must be
+        literally the descriptors the model functions are proved to implement *)
+Theorem C19_source_get_descr : get_descr = model_get_descr.
+Proof. reflexivity. Qed.
+
+Theorem C19_source_get_is_model : forall h key index, get_d get_descr h key index = Some (get h key index).
+Proof. exact (get_d_of_descr get_descr C19_source_get_descr). Qed.
+
+Theorem C19_source_save_descr : save_descr = model_save_descr.
+Proof. reflexivity. Qed.
+
+Theorem C19_source_load_descr : load_descr = model_load_descr.
+Proof. reflexivity. Qed.
+
+Theorem C19_source_save_is_model : forall (bytes : Type) (pickle : hist -> bytes) h,
+  save_d bytes pickle save_descr h = Some (save bytes pickle h).
+Proof. intros bytes pickle. exact (save_d_of_descr bytes pickle save_descr C19_source_save_descr). Qed.
+
+Theorem C19_source_load_is_model : forall (bytes : Type) (unpickle : bytes -> hist) s f,
+  load_d bytes unpickle load_descr s f = Some (load_file bytes unpickle s f).
+Proof. intros bytes unpickle. exact (load_d_of_descr bytes unpickle load_descr C19_source_load_descr). Qed.
+
 (* ---- what a run leaves in its History (dump_spec instantiated at the optimizers' dump site) *)
 Theorem C19_run_history : forall b (iters : list iteration), iters <> [] ->
   exists h, dumps (fresh b) (map run_kwargs iters) = Some h /\
